@@ -18,6 +18,7 @@ import (
 	"math/rand"
 	"os"
 	"path/filepath"
+	"sort"
 	"strings"
 
 	"github.com/go-kit/log"
@@ -37,6 +38,12 @@ type stepIn struct {
 	Block int    `json:"block"` // block number
 	Crash int    `json:"crash"` // -1: none; k: the process dies after k mutating bucket operations
 	Conc  int    `json:"conc"`  // upload concurrency (0 = default)
+	// act "repdel": ensureBlockIsReplicated origin->target interleaved with block.Delete of the same
+	// block on the origin: delete operation i is performed right before the replicator's origin
+	// operation number sched[i] (non-decreasing; operations not scheduled, or scheduled past the
+	// replicator's last origin operation, follow when the replicator is done)
+	Sched []int `json:"sched,omitempty"`
+	Lex   bool  `json:"lex,omitempty"` // origin bucket lists in plain lexicographic order (S3/GCS) instead of the in-memory order
 }
 
 type input struct {
@@ -196,6 +203,98 @@ func run(raw json.RawMessage) (common.Case, error) {
 	classes := map[string]bool{}
 	crashes, totalOps := 0, 0
 	for si, st := range in.Steps {
+		if st.Act == "repdel" {
+			id := cu.BlockULID(st.Block)
+			preO := inner[0].Objects()
+			delRB := cu.NewRecBucket(inner[0])
+			delRB.Permit = make(chan struct{})
+			delRB.Stepped = make(chan struct{}, 1000)
+			delRB.LexIter = st.Lex
+			delDone := make(chan error, 1)
+			go func() { delDone <- block.Delete(ctx, logger, delRB, id) }()
+			finished := false
+			var derr error
+			stepDel := func() { // let the deleter perform one mutating operation
+				if finished {
+					return
+				}
+				select {
+				case delRB.Permit <- struct{}{}:
+					select {
+					case <-delRB.Stepped:
+					case derr = <-delDone:
+						finished = true
+					}
+				case derr = <-delDone:
+					finished = true
+				}
+			}
+			next := 0
+			from := cu.NewRecBucket(inner[0])
+			from.CountReads = true
+			from.LexIter = st.Lex
+			from.BeforeOp = func(idx int) {
+				for next < len(st.Sched) && st.Sched[next] <= idx {
+					stepDel()
+					next++
+				}
+			}
+			rb := cu.NewRecBucket(inner[1])
+			rerr := replicate.VerifC28EnsureBlockIsReplicated(ctx, logger, from, rb, id)
+			close(delRB.Permit) // the rest of the deletion runs freely
+			if !finished {
+				derr = <-delDone
+			}
+			ropsAll := cu.MutOps(rb.Ops())
+			dopsAll := cu.MutOps(delRB.Ops())
+			totalOps += len(ropsAll) + len(dopsAll)
+			classes["replicate"], classes["delete"], classes["interleaved"] = true, true, true
+			render := func(ops []cu.Op, who string) (opsC, snapsC, names []string) {
+				for _, o := range ops {
+					opsC = append(opsC, env.OpCoq(o))
+					snapsC = append(snapsC, env.BucketCoq(o.Snap))
+					names = append(names, o.Kind+" "+o.Name)
+					if p := metaProblem(o.Snap); p != "" && c.GoPred == "" {
+						c.GoPred = fmt.Sprintf("step %d (replicate interleaved with delete of the origin block; %s) after %q: %s", si, who, o.Kind+" "+o.Name, p)
+						c.Sig = "visible-incomplete"
+						if st.Lex {
+							// the replicator lists chunks/ after the deleter removed some of them and still finds the index
+							c.Sig = "replicate-races-delete-lexicographic-listing"
+						}
+					}
+				}
+				return
+			}
+			rC, rS, rN := render(ropsAll, "target bucket")
+			dC, dS, dN := render(dopsAll, "origin bucket")
+			// the deleter's order of the files (as for a plain delete)
+			var order []string
+			seen := map[string]bool{}
+			metaN, markN := id.String()+"/"+block.MetaFilename, id.String()+"/"+metadata.DeletionMarkFilename
+			for _, o := range dopsAll {
+				if o.Name == metaN || o.Name == markN || strings.HasSuffix(o.Name, "/") {
+					continue
+				}
+				order = append(order, env.ParseName(o.Name).File.Coq())
+				seen[o.Name] = true
+			}
+			for _, n := range cu.SortedNames(preO) {
+				if strings.HasPrefix(n, id.String()+"/") && !seen[n] && n != metaN && n != markN && !strings.HasSuffix(n, "/") {
+					order = append(order, env.ParseName(n).File.Coq())
+				}
+			}
+			var sched []string
+			for _, x := range st.Sched {
+				sched = append(sched, common.Nat(x))
+			}
+			bn := common.N(uint64(st.Block))
+			steps = append(steps,
+				common.App("mkstep", common.App("ARepDel", bn, common.List(sched), common.List(order)), common.None, common.Bool(rerr == nil), common.List(rC), common.List(rS)),
+				common.App("mkstep", common.App("ADelete", "false", bn, common.List(order)), common.None, common.Bool(derr == nil), common.List(dC), common.List(dS)))
+			obs = append(obs, map[string]any{"step": si, "act": "repdel", "replicate_returned_nil": rerr == nil, "replicate_ops": rN, "delete_ops": dN,
+				"origin_ops_of_replicator": from.Counted(), "sched": st.Sched, "lex": st.Lex})
+			continue
+		}
 		side := st.Side
 		if st.Act == "replicate" {
 			side = 1
@@ -345,13 +444,13 @@ func run(raw json.RawMessage) (common.Case, error) {
 	}
 	c.Coq = common.App("CScen", common.List(univ), common.List(steps))
 	var cl []string
-	for _, k := range []string{"upload", "delete", "mark", "replicate"} {
+	for _, k := range []string{"upload", "delete", "mark", "replicate", "interleaved"} {
 		if classes[k] {
 			cl = append(cl, k)
 		}
 	}
 	c.Class = strings.Join(cl, "+")
-	c.Nontrivial = crashes >= 1 && totalOps >= 4
+	c.Nontrivial = (crashes >= 1 || classes["interleaved"]) && totalOps >= 4
 	c.Obs = obs
 	return c, nil
 }
@@ -407,6 +506,25 @@ func gen(r *rand.Rand, tier string, n int) []any {
 			}
 			if r.Intn(5) < 2 {
 				st.Crash = r.Intn(maxChunks + 4)
+			}
+			if st.Act == "replicate" && r.Intn(3) == 0 {
+				// the origin block is deleted while it is replicated
+				st.Act, st.Crash = "repdel", -1
+				nd := r.Intn(8)
+				at := 0
+				for d := 0; d < nd; d++ {
+					at += r.Intn(3)
+					st.Sched = append(st.Sched, at)
+				}
+				st.Lex = r.Intn(6) == 0
+				if st.Lex && r.Intn(2) == 0 {
+					// deletions bunched right before the replicator lists chunks/
+					st.Sched = nil
+					for d := 0; d < 1+r.Intn(4); d++ {
+						st.Sched = append(st.Sched, r.Intn(3))
+					}
+					sort.Ints(st.Sched)
+				}
 			}
 			in.Steps = append(in.Steps, st)
 			// a cut action is usually retried
